@@ -32,6 +32,11 @@ CHECKS = {
          "On the program spaces of C04 (all 361 ordered operator pairs in both groupings, all three-operator trees, unary x binary x postfix mixes, every statement template in every block/non-block body combination) the S-expression extracted from the typed AST only through public accessors (BinExpr::lhs/rhs/op_kind, IfStmt::true_body/false_body, ForStmt, Gate::angle_params/qubit_params, Def, RangeExpr::start_step_stop, modifiers, arguments, operands ...) must equal the model's, role by role. The precedence table is data in the harness and self-tested.",
          "Programs the parser rejects are skipped (C04's). Two defects (precedence table, if/else accessors) were repaired by fix: commits; two are recorded as known findings.",
          "DESIGN.md section 7, C05"),
+ "C06": ("exploration",
+         "bounded exhaustive enumeration of supported model programs; node-by-node comparison of the graph skeleton (through public accessors and the final symbol table) with the skeleton predicted from the model",
+         "Every supported leaf template inside spines of <= 2 (thorough 3, and 4-5 over the reduced context set) contexts after its declarations, all sequences of <= 2 (thorough 3) supported statements with annotation lines, all two-operator trees and unary/postfix mixes over the 13 supported binary operators in 6 expression positions: the graph's statement kinds, nesting, order, branch/body/case/default roles, operand, argument, qubit, index and modifier order, operator identity, literal class and value, symbol names, annotations and pragma text must equal the model's.",
+         "Casts are transparent and declared types are not compared. Programs not analysed (syntax diagnostics, analyser panics) are skipped and counted. Three findings recorded (`**` stored as `++`, `let` in bodies, cast-initial statement).",
+         "DESIGN.md section 7, C06"),
  "C07": ("model_checking",
          "exhaustive exploration of scope/declaration/use operation histories rendered as programs and executed by the real analyser, compared reference by reference with a reference scope stack",
          "All well-formed histories of <= 5 (thorough 6) operations over {declare int/const/qubit x, use x, assign x, gate-call x, open if/else/while/for x/case/default/gate(x)/def(x), close} for three two-name pools (user names; pi and the library gate h after include; the built-in U) are rendered as programs; the graph is walked in source order and every symbol reference is compared with the reference scope machine: resolved iff visible, same symbol iff same declaration, symbol name equals the identifier, unresolved uses marked MissingBinding, typed Undefined and reported exactly once on the identifier, duplicates marked AlreadyBound and reported exactly once with the name, scope stack back at depth 1. Reports reference states, transitions and traces; every trace runs on the implementation.",
